@@ -659,7 +659,55 @@ def run_shutdown(rec, case):
         sim.teardown()
 
 
+def run_accept_fails(rec, case):
+    """A connection opened directly on WebSocket whose connect handler
+    accepts, but whose client is gone by the time the driver completes the
+    handshake (the driver raises): the accepted session still gets exactly
+    one disconnect event within the heartbeat bound, and leaves the table."""
+    srv, dt = case['srv'], case['suspend']
+    pi, pt = 5, 3
+    rec.evaluations += 1
+    rec.count('accept_failures')
+    rec.key('acceptfail/%s/%s' % (srv, dt))
+    sim = scen.make_sim(srv, server_kwargs={'ping_interval': pi,
+                                            'ping_timeout': pt},
+                        handler_cfg={'suspend': {'connect': dt}} if dt
+                        else {}, async_handlers_coro=True)
+
+    def V(key, msg):
+        rec.viol(key, msg + ' | WEBSOCKET OPEN, CLIENT GONE AT THE HANDSHAKE '
+                 'server=%s connect handler suspends %r' % (srv, dt), case)
+    try:
+        ws = sim.new_ws()
+        ws.accept_fails = True
+        t = sim.request('GET', {'transport': 'websocket', 'EIO': '4'},
+                        {'Upgrade': 'websocket', 'Connection': 'Upgrade'},
+                        ws=ws)
+        sim.quiesce()
+        sim.advance((dt or 0) + 0.5)
+        con = [e for e in sim.events if e['ev'] == 'connect']
+        if len(con) != 1:
+            return      # refused before the handler: nothing to end
+        sim.advance(pi + 3 * pt + pi + pt + 1)
+        sim.quiesce()
+        rec.count('exactly_one_disconnect')
+        dis = [e for e in sim.events if e['ev'] == 'disconnect']
+        if len(dis) != 1:
+            V('no-disconnect' if not dis else 'disconnect-twice',
+              'the connect handler accepted the session, the driver then '
+              'failed the handshake; %d disconnect events after %s s (table '
+              '%r)' % (len(dis), pi + 3 * pt + pi + pt + 1,
+                       [sim.sidn(x) for x in sim.table_sids()]))
+        elif sim.table_sids():
+            V('session-left-in-table', 'table %r after the disconnect event'
+              % (sim.table_sids(),))
+    finally:
+        sim.teardown()
+
+
 def dispatch(rec, case):
+    if case.get('acceptfail'):
+        return run_accept_fails(rec, case)
     if case.get('shutdown'):
         return run_shutdown(rec, case)
     if case.get('dfs'):
@@ -724,6 +772,9 @@ def plan(tier, seed):
                 for late in (0, 1, 3):
                     sd.append({'shutdown': True, 'srv': srv, 'modes': modes,
                                'suspend': dt, 'late': late})
+    for srv in 'TA':
+        for dt in (None, 0.25):
+            sd.append({'acceptfail': True, 'srv': srv, 'suspend': dt})
     shards.append({'pairs': sd})
     return shards
 
